@@ -16,7 +16,6 @@ package h_ipset
 
 import (
 	"fmt"
-	"os"
 	"sort"
 	"strings"
 	"testing"
@@ -96,10 +95,13 @@ type world struct {
 	cmdBudget  int
 	tracked    map[string]*bounds
 	callFaults int
-	// midLineList is set while Felix parses a listing that was cut in the
-	// middle of a line (see the finding in the engine report): Felix panics on
-	// some such inputs, which is accepted as a process crash unless
-	// VERIF_IPSET_STRICT is set.
+	// midLineList is set while Felix parses the output of a FAILED `ipset list`
+	// (non-zero exit or read error) that was cut in the middle of a line.  Felix
+	// panics on some such inputs; C16 is about kernel state, and a panic
+	// followed by a restart and a start-of-day resync keeps the kernel safe, so
+	// the panic is modelled as a process crash (like the documented give-up
+	// panic) and counted with a probe.  A mid-line cut delivered with a clean
+	// exit would be ordinary odd input and is not excused.
 	midLineList bool
 
 	// caller intent
@@ -113,8 +115,6 @@ type world struct {
 	pendingFull bool // a new IPSets object has not completed its first ApplyUpdates yet
 	rsActive    bool // a QueueResync round is in progress
 	rsClean     bool
-	rsSwapped   bool // a temp set was swapped in during the round (see finding 2 in the report)
-	strict      bool // VERIF_IPSET_STRICT: do not tolerate the two reported findings
 }
 
 func (w *world) advance(d time.Duration) {
@@ -348,7 +348,6 @@ func (w *world) felixLine(via, line string) error {
 	}
 	if isCmd(fields, "swap") {
 		r.Probe("temp_swap_used")
-		w.rsSwapped = true
 	}
 	for _, n := range core.SortedKeys(w.tracked) {
 		b := w.tracked[n]
@@ -416,7 +415,7 @@ func (w *world) callSUT(fn func()) (outcome int) {
 				outcome = outcomeCrash
 				return
 			}
-			if w.midLineList && !w.strict {
+			if w.midLineList {
 				w.midLineList = false
 				w.r.Probe("panic_parsing_list_cut_mid_line")
 				w.r.Logf("  Felix PANICKED parsing a listing cut mid-line: %.80s", fmt.Sprint(p))
@@ -880,17 +879,7 @@ func (w *world) applyDeletions() (bool, bool) {
 			w.rsActive = false
 			if w.rsClean {
 				r.Probe("clean_resync_round_completed")
-				w.untrusted, w.stray = false, false
-				// A set swapped out during the round was not in the round's
-				// name listing; if the main set carried a failed-deletion mark
-				// the temp set inherits it and is only retried after the next
-				// resync.  Tolerated (reported as a finding), so the excuse
-				// survives such a round.
-				if w.delFailed && w.rsSwapped && !w.strict {
-					r.Probe("delete_failed_excuse_kept_after_swap")
-				} else {
-					w.delFailed = false
-				}
+				w.untrusted, w.stray, w.delFailed = false, false, false
 			}
 		}
 		if !w.untrusted && !w.stray && !w.delFailed {
@@ -905,7 +894,7 @@ func (w *world) applyDeletions() (bool, bool) {
 func (w *world) queueResync() {
 	w.r.Op("QueueResync")
 	w.f.QueueResync()
-	w.rsActive, w.rsClean, w.rsSwapped = true, true, false
+	w.rsActive, w.rsClean = true, true
 }
 
 // settle: no faults; resync rounds until the kernel is exactly as desired.
@@ -978,12 +967,11 @@ func run(r *core.R) {
 	r.ProbeDecl("temp_swap_used", "referenced_params_changed_by_swap", "incremental_update_of_referenced_set", "temp_set_destroyed",
 		"write_error_surfaced", "list_set_not_found", "oob_edit_mid_call", "oob_destroyed_felix_set", "retry_backoff_sleep",
 		"start_of_day_resync", "apply_succeeded_after_faults", "exact_check_after_updates", "no_stray_check",
-		"clean_resync_round_completed", "delete_failed_excuse_kept_after_swap", "settle_needed_rescheduled_iterations", "converged_in_round_1", "converged_in_round_2",
+		"clean_resync_round_completed", "settle_needed_rescheduled_iterations", "converged_in_round_1", "converged_in_round_2",
 		"converged_in_round_3", "size_or_range_change_requested", "type_change_requested", "filter_excludes_programmed_set",
 		"mid_run_settle", "list_output_cut_mid_line", "panic_parsing_list_cut_mid_line", "stale_temp_at_start", "wrong_type_at_start", "referenced_at_start")
 
 	w := &world{r: r, k: newKernel(), all: map[string]*dset{}, now: time.Unix(1_000_000_000, 0)}
-	w.strict = os.Getenv("VERIF_IPSET_STRICT") != ""
 	thorough := r.Tier == "thorough"
 	if r.Src.Chance(250, "ipv6") {
 		w.family, w.ver = "inet6", "6"
